@@ -819,3 +819,86 @@ Proof.
   intros v start num Hs Hn. rewrite delete_spec by easy. cbn [argv_count].
   rewrite app_length, firstn_length, skipn_length. lia.
 Qed.
+
+(* ------------------------------------------------------------------------ *)
+(* the statements of Properties_C39.v *)
+Lemma P_split_join_modulo_empty_fields : forall s d,
+  intercalate d (fields d s) = s /\
+  vec_of (argv_split s d) = filter nonempty (fields d s) /\
+  argv_join (argv_split s d) d = intercalate d (filter nonempty (fields d s)).
+Proof. intros s d. split; [apply intercalate_fields | split; [apply split_spec | apply join_split]]. Qed.
+
+Lemma P_split_with_empty_join_refuted :
+  exists s d, argv_join (argv_split_with_empty s d) d <> s.
+Proof. exists ["a"; ","]%char, ","%char. vm_compute. discriminate. Qed.
+
+Lemma P_split_with_empty_join_exact : forall s d,
+  vec_of (argv_split_with_empty s d) = strip_last_empty (fields d s) /\
+  (forall t, s = t ++ [d] -> argv_join (argv_split_with_empty s d) d = t) /\
+  (argv_join (argv_split_with_empty s d) d = s <-> ~ ends_with d s).
+Proof.
+  intros s d. split; [apply split_with_empty_spec|].
+  split; [apply join_split_with_empty_exact | apply join_split_with_empty_roundtrip_iff].
+Qed.
+
+Lemma P_split_after_join : forall v d,
+  Forall (fun t => t <> [] /\ ~ In d t) v ->
+  vec_of (argv_split (argv_join (Some v) d) d) = v /\
+  vec_of (argv_split_with_empty (argv_join (Some v) d) d) = v.
+Proof. intros v d H. split; [now apply split_join | now apply split_with_empty_join]. Qed.
+
+Lemma P_insert_positions : forall tv start sv j,
+  (0 <= start)%Z ->
+  let p := Nat.min (Z.to_nat start) (length tv) in
+  let r := vec_of (snd (argv_insert (Some tv) start (Some sv))) in
+  argv_insert (Some tv) start (Some sv) =
+    (RC_SUCCESS, Some (firstn (Z.to_nat start) tv ++ sv ++ skipn (Z.to_nat start) tv)) /\
+  length r = length tv + length sv /\
+  (j < p -> nth j r [] = nth j tv []) /\
+  (p <= j < p + length sv -> nth j r [] = nth (j - p) sv []) /\
+  (p + length sv <= j -> nth j r [] = nth (j - length sv) tv []).
+Proof.
+  intros tv start sv j Hs p r. split; [now apply insert_spec|]. split.
+  - pose proof (insert_count tv start sv Hs) as Hc. subst r.
+    rewrite insert_spec in * by easy. exact Hc.
+  - apply (insert_nth tv start sv j Hs).
+Qed.
+
+Lemma P_delete_positions : forall argc v start num j,
+  (0 <= start <= Z.of_nat (length v))%Z -> (0 < num)%Z ->
+  let r := vec_of (snd (argv_delete argc (Some v) start num)) in
+  argv_delete argc (Some v) start num =
+    (RC_SUCCESS, (argc - num)%Z, Some (firstn (Z.to_nat start) v ++ skipn (Z.to_nat start + Z.to_nat num) v)) /\
+  length r = length v - Nat.min (Z.to_nat num) (length v - Z.to_nat start) /\
+  (j < Z.to_nat start -> nth j r [] = nth j v []) /\
+  (Z.to_nat start <= j -> nth j r [] = nth (j + Z.to_nat num) v []).
+Proof.
+  intros argc v start num j Hs Hn r. split; [now apply delete_spec|]. split.
+  - pose proof (delete_count argc v start num Hs Hn) as Hc. subst r.
+    rewrite delete_spec in * by easy. exact Hc.
+  - apply (delete_nth argc v start num j Hs Hn).
+Qed.
+
+Lemma P_delete_noop : forall argc a start num,
+  ((num = 0 \/ start > Z.of_nat (argv_count a) \/ a = None)%Z ->
+     argv_delete argc a start num = (RC_SUCCESS, argc, a)) /\
+  (forall v, a = Some v -> (num <> 0)%Z -> (start <= Z.of_nat (length v))%Z -> (start < 0 \/ num < 0)%Z ->
+     argv_delete argc a start num = (RC_BAD_PARAM, argc, a)).
+Proof.
+  intros argc a start num. split; [apply delete_noop|].
+  intros v -> H1 H2 H3. now apply delete_bad_param.
+Qed.
+
+Lemma P_small : forall a x,
+  argv_append a x = (S (argv_count a), Some (vec_of a ++ [x])) /\
+  argv_append_nosize a x = Some (vec_of a ++ [x]) /\
+  argv_prepend_nosize a x = Some (x :: vec_of a) /\
+  argv_copy a = a /\
+  argv_count a = length (vec_of a) /\
+  argv_len None = 0 /\
+  (forall v, argv_len (Some v) = ptr_size + fold_right (fun s acc => length s + 1 + ptr_size + acc) 0 v).
+Proof.
+  intros a x.
+  split; [apply append_vec|]. split; [apply append_nosize_vec|]. split; [apply prepend_spec|].
+  split; [apply copy_spec|]. split; [now destruct a|]. split; [reflexivity | apply len_spec].
+Qed.
